@@ -5,7 +5,7 @@ LEVEL = "proof"
 META = {
     "level": "proof",
     "technique": "contract-based deductive verification: sidecar pre/postconditions, frames and loop invariants on the real functions, VCs generated from their AST, discharged by z3/cvc5",
-    "level_text": 'Context data access, copy/isolation functions, kwargs and the reserved-name guard of the render entry point are verified for all dict contents; frame conditions prove that template code paths do not alter the data seen by other scopes.',
+    "level_text": 'Run time: Context data access, copy/isolation functions, kwargs and the reserved-name guard of the render entry point are verified for all dict contents; frame conditions prove that template code paths do not alter the data seen by other scopes. Compile time: for every visitor of _Identifiers (code, expressions, control lines, include, text, page, call, def; children under the induction hypothesis) the names demanded from the context are exactly those a node reads without binding them, minus context and what is already declared or local, and what a node binds becomes local / an argument; the stub of a top-level def hands on the body locals exactly when the template body has any.',
     "level_note": 'Trusted: the pyvc encoding of Python semantics (DESIGN 3.1), z3/cvc5, assumed contracts listed in the evidence, the induction hypothesis for opaque render callables (R3). Native small-scope runs of the same contracts are bounded stand-ins, never counted as proved.',
 }
 
